@@ -38,6 +38,31 @@ theorem C11_stamp_position (date : Str) (k j : Nat) (sym : Str) (prio body : Lis
       .ok (shapePre k sym prio ++ date ++ [' '] ++ joinSp (dropLeading isSixDigits body)) :=
   addOrUpdateModifyDate_shape date k j sym prio body h hsp
 
+/-- **File and index agree on the stamped first line**: the body `_check_for_modified_notes` stores in the index
+(`stampedBody`) is exactly what follows the prefix in the line `_add_or_update_modify_date` writes
+(`C11_stamp_position`) — for every body whose first word is not blank and, when it is six digits, is a real date
+(a note that is stamped carries its ZID in identity position, so a six-digit first word is its old stamp). -/
+theorem C11_index_body_agrees (date : Str) (o n : NoteState) (body : List Str) (hn : n.body = joinSp body)
+    (hb : body ≠ []) (hsp : ∀ w ∈ body, ' ' ∉ w)
+    (hh : ∀ w, body.head? = some w → (∃ c cs, w = c :: cs ∧
+      (c == ' ' || c == '\t' || c == '\n' || c == '\r' || c == '\x0b' || c == '\x0c') = false) ∧
+      (isSixDigits w = Query.isShortDateSpec w)) :
+    stampedBody date o n = date ++ [' '] ++ joinSp (dropLeading isSixDigits body) := by
+  cases body with
+  | nil => exact absurd rfl hb
+  | cons w r =>
+    obtain ⟨⟨c, cs, hw, hc⟩, hd6⟩ := hh w rfl
+    obtain ⟨t, ht⟩ : ∃ t, joinSp (w :: r) = c :: t := by
+      subst hw; exact ⟨_, joinWith_consChar [' '] c cs r⟩
+    unfold stampedBody
+    have hd : (joinSp (w :: r)).dropWhile (fun c => c == ' ' || c == '\t' || c == '\n' || c == '\r' || c == '\x0b' || c == '\x0c')
+        = joinSp (w :: r) := by
+      rw [ht, List.dropWhile_cons, hc]; rfl
+    simp only [hn, hd]
+    rw [splitOn_joinSp (w :: r) (by simp) hsp]
+    simp only [dropLeading, List.headD_cons, List.drop_succ_cons, List.drop_zero, ← hd6]
+    cases isSixDigits w <;> simp
+
 /-- re-stamping on a later day replaces the old stamp (no stamps pile up) -/
 theorem C11_restamp (d1 d2 : Str) (k j : Nat) (sym : Str) (prio body : List Str) (h : Shape sym prio j body)
     (hsp : ∀ w ∈ shapeWords k sym prio j body, ' ' ∉ w) (hd1 : isSixDigits d1 = true) (l1 : Str)
